@@ -401,6 +401,12 @@ class Evaluator:
             array_call = a.kind == "call" and a.args[0].kind == "ext" and a.args[0].args[0].split(".")[0] in ("jax", "numpy", "chex")
             if a.kind in definite or array_call:
                 return const(op == "isnot")
+        if op in ("==", "!=") and a.kind == "tuple" and b.kind == "tuple" and len(a.args[0]) == len(b.args[0]) and len(a.args[0]) >= 1 \
+                and not any(x.kind == "star" for x in a.args[0] + b.args[0]):
+            # (a1, a2) == (b1, b2) is a1 == b1 and a2 == b2 (element by element, short-circuit)
+            parts = tuple(self.mk_cmp("==", x, y, frame) for x, y in zip(a.args[0], b.args[0]))
+            conj = parts[0] if len(parts) == 1 else mk("bool", "and", parts)
+            return conj if op == "==" else mk("un", "not", conj)
         d = DUNDER.get(op)
         if d is not None:
             ci = self.typeof(a)
